@@ -354,6 +354,12 @@ func buildC18(c *C18Case) error {
 			if err := syscall.Mkfifo(l.Factory, 0o666); err != nil {
 				return err
 			}
+		case "socket-at-file":
+			// ... a unix socket (what a crashed editor plug-in or a mis-typed path of some daemon leaves behind) ...
+			_ = os.Remove(l.Factory)
+			if err := syscall.Mknod(l.Factory, syscall.S_IFSOCK|0o666, 0); err != nil {
+				return err
+			}
 		case "file-at-dir":
 			// ... or a plain file where a factory directory belongs
 			dir := filepath.Dir(l.Factory)
@@ -668,7 +674,7 @@ func genC18(t *rapid.T) C18Case {
 	}
 	if c.CrashKind == "" && rapid.IntRange(0, 7).Draw(t, "linked") == 0 {
 		f := files[rapid.IntRange(0, len(files)-1).Draw(t, "linkedFactory")]
-		c.Links = append(c.Links, c18Link{Kind: rapid.SampledFrom([]string{"hard", "hard", "sym", "dangling", "dangling-dir", "dir-into-user", "dir-dangling", "to-dir", "self", "through-file", "dir-at-file", "fifo-at-file", "file-at-dir"}).Draw(t, "linkKind"), Factory: f.Path,
+		c.Links = append(c.Links, c18Link{Kind: rapid.SampledFrom([]string{"hard", "hard", "sym", "dangling", "dangling-dir", "dir-into-user", "dir-dangling", "to-dir", "self", "through-file", "dir-at-file", "fifo-at-file", "socket-at-file", "file-at-dir"}).Draw(t, "linkKind"), Factory: f.Path,
 			User: "hidi-config/user/keyboard/my_copy.toml", Data: append([]byte("# my own version\n"), genBytes(t, "linkedData")...)})
 	}
 	if rapid.IntRange(0, 3).Draw(t, "siblings") == 0 {
